@@ -1156,6 +1156,12 @@ def _native(op: str, args, params) -> Val:
     if op == "item":
         d = args[0].a
         return d[p["key"]]
+    if op == "named":
+        return args[0]
+    if op == "sendhold":
+        return args[1]
+    if op == "recv":
+        return make_input(p["values"], p["dtype"], p["shape"], p.get("scale", 0))
     raise ValueError(f"unknown op {op}")
 
 
